@@ -29,6 +29,18 @@ import (
 var tkeys = [][]byte{{0x12}, {0x12, 0x34}, {0x12, 0x35}, {0x12, 0x34, 0x56}, {0x13}, {0x20}, {0x21, 0x00}, {0x21, 0x0f}, {0xff}, {0xff, 0xff}, {0x12, 0x34, 0x57}, {0x00}, {0x12, 0x34, 0x56, 0x78, 0x9a}, {0x21}}
 var tvals = [][]byte{{1}, {2}, {}, {1}, {3, 3}, {1}, {2}}
 
+// boundary-size values: the longest storage value (65535 bytes) and one below,
+// and the lengths around the width change of the length prefix.
+var tbig = [][]byte{bytes.Repeat([]byte{7}, 65535), bytes.Repeat([]byte{8}, 65534), bytes.Repeat([]byte{9}, 253), bytes.Repeat([]byte{9}, 252), bytes.Repeat([]byte{7}, 65535)}
+
+// tval picks a value: small ones shared by many keys, now and then a boundary-size one.
+func tval(r *rng.R) []byte {
+	if r.Intn(40) == 0 {
+		return tbig[r.Intn(len(tbig))]
+	}
+	return tvals[r.Intn(len(tvals))]
+}
+
 type getter interface {
 	Get([]byte) ([]byte, error)
 }
@@ -218,7 +230,7 @@ func moduleSeq(run *ev.Run, idx int, nblocks int) (*viol, []string, bool) {
 			if r.Intn(3) == 0 {
 				b["\x70"+string(k)] = nil
 			} else {
-				b["\x70"+string(k)] = tvals[r.Intn(len(tvals))]
+				b["\x70"+string(k)] = tval(r)
 			}
 		}
 		if apply {
@@ -349,7 +361,7 @@ func trieSeq(run *ev.Run, idx int, nblocks int) (*viol, []string) {
 				if r.Intn(3) == 0 {
 					b["\x70"+string(k)] = nil
 				} else {
-					b["\x70"+string(k)] = tvals[r.Intn(len(tvals))]
+					b["\x70"+string(k)] = tval(r)
 				}
 			}
 			for k, v := range b {
@@ -371,7 +383,7 @@ func trieSeq(run *ev.Run, idx int, nblocks int) (*viol, []string) {
 					delete(content, string(k))
 					log = append(log, fmt.Sprintf("block %d delete %x", blk, k))
 				} else {
-					v := tvals[r.Intn(len(tvals))]
+					v := tval(r)
 					if err := tr.Put(k, v); err != nil {
 						return &viol{"trie:put-failed", err.Error()}, log
 					}
